@@ -150,6 +150,24 @@ def main():
 
   # ---- deductive part ------------------------------------------------------------------------------
   results = engine.run_units(units, tier, ns.jobs) if units else []
+  # modular closure: a caller was checked against its callees' CONTRACTS -- the property rests on them, so the callees' bodies are
+  # checked against those contracts in the same run (transitively), whichever property the callee contract was first written for
+  from npvc.contracts import REGISTRY as _REG
+  done_targets = {u[1] for u in units if u[0] == 'contract'}
+  closure_units = []
+  for _round in range(6):
+    used = {c for u in results for c in (u.get('report') or {}).get('used_contracts', [])}
+    # boundary: the input-validation layer (check_input and below) is the subject of C05 / C06 (and part of C03 / C17); the other
+    # properties take validated input as their starting point, so the closure stops at _prepare_inputs
+    more = sorted(t for t in used if t in _REG and t not in done_targets
+                  and not (t.startswith(('_util:check_', '_util:preprocess_', '_util:make_error_input')) and t != '_util:_check_sdp_from_eigen'
+                           and t != '_util:_check_n_components'))
+    if not more:
+      break
+    new_units = [('contract', t) for t in more]
+    done_targets |= set(more)
+    closure_units += new_units
+    results += engine.run_units(new_units, tier, ns.jobs)
   clauses = engine.aggregate(results)
   solver_seconds = sum(o['seconds'] for u in results for o in u['obligations'])
   n_obl = sum(len(u['obligations']) for u in results)
@@ -274,7 +292,7 @@ def main():
       obligations=n_obl - known_obls, discharged=n_dis,
       obligations_matching_known_findings=known_obls,
       clauses=len(clauses), clauses_discharged=sum(1 for c in clauses.values() if c['status'] == 'discharged'),
-      units=len(units), units_undecided=len([u for u in results if u['undecided']]),
+      units=len(units) + len(closure_units), units_of_the_property=len(units), callee_contract_units_checked_by_closure=[u[1] for u in closure_units], units_undecided=len([u for u in results if u['undecided']]),
       checker_cmd='./verif.sh check %s --tier %s' % (prop, tier),
       backends=dict(z3=n_obl, cvc5_crosschecked=sum(1 for u in results for o in u['obligations'] if o.get('cvc5') == 'unsat'),
                     cvc5_disagreements=[o['id'] for u in results for o in u['obligations'] if o.get('cvc5') in ('sat',)]),
@@ -316,7 +334,7 @@ def main():
     for cid, c in sorted(clauses.items()):
       print('  %-11s %-90s paths=%d %.3fs' % (c['status'], cid, c['paths'], c['seconds']))
   print('%s tier=%s: %d/%d obligations discharged in %d units (%d clauses), solver %.2fs, wall %.1fs; violations=%d known=%d undecided=%d'
-        % (prop, tier, n_dis, n_obl, len(units), len(clauses), solver_seconds, time.time() - t0, len(vio_lines), len(seen_known), len(undecided)))
+        % (prop, tier, n_dis, n_obl, len(units) + len(closure_units), len(clauses), solver_seconds, time.time() - t0, len(vio_lines), len(seen_known), len(undecided)))
   if errors:
     return 3
   if vio_lines:
